@@ -4,7 +4,7 @@ sys.path.insert(0, os.path.dirname(os.path.dirname(os.path.abspath(__file__))))
 import vlib
 
 PID = "C15"
-LEAN_MODULES = ["QbiceVerif.Props.C15"]
+LEAN_MODULES = ["QbiceVerif.Props.C15", "QbiceVerif.Props.C15Nested"]
 DRIVER = "drv_intern"
 HARNESS_BIN = "intern"
 HARNESS_FEATURES = ""
@@ -17,7 +17,11 @@ ASSUMPTIONS = [
     "Weak::upgrade succeeds iff it is non-zero and is atomic",
     "parking_lot::RwLock specification: a write guard excludes every other guard; try_write fails instead of waiting",
     "handles produced by a running decode stay alive until the top-level decode call returns (they are owned by the "
-    "value under construction or by an equal, already interned value)",
+    "value under construction or by an equal, already interned value); interned_sharing_nested states the second half "
+    "as the hypothesis `IOk` on the decoder-side interner: a live value holds inner handles interned through the same "
+    "interner (not `Interned::new_duplicating` copies; otherwise the decoder can panic: finding F61, filed under C12)",
+    "interned_sharing_nested / interned_sharing_with_live: no-collision hypothesis `hinj` over all handle payloads of the "
+    "value (every depth) and of the decoder-side interner, as in C12's interned_roundtrip_nested",
 ]
 TRUSTED_EXTRA = [
     "modelled, not verified: Arc/Weak and RwLock (by their specifications above); `Arc::new` + `entry.insert` under the "
@@ -27,6 +31,9 @@ TRUSTED_EXTRA = [
     "thread traces are validated at call/return granularity (no hooks inside /repo): the Lean driver searches a "
     "linearisation of the logged calls against the atomic specification `aStep`, which `refines_atomic` ties to the LTS",
     "postcard byte layout of the harness's value types in Driver/Model `Tok.bytes` is checked byte-for-byte against the real encoder on every run, not proved",
+    "Props/C15Nested is about Model/CodecNested (byte level, general payloads); it is tied to the code by the `nested` stage "
+    "of the C12 harness (`codec --stages nested`, driver drv_codec), which this check runs too: allocations of the model "
+    "are slot numbers, of the code `Arc` pointers (compared as partitions of the handle occurrences in pre-order)",
 ]
 
 RULE = ("seeded cases of three kinds per iteration — S: sequential op sequences (1-4 logical tasks, 3 types x 4 keys x 2 "
@@ -34,7 +41,9 @@ RULE = ("seeded cases of three kinds per iteration — S: sequential op sequence
         "threads (+ vacuum thread) with a call/return log; X: encode/decode of graphs of nested, repeated interned handles "
         "of 4 types.  Non-trivial: S has a hit, >=2 allocations and a re-allocation after the slot died; T has an "
         "intern/get that overlaps in time an acquire/release of a handle of its own slot on another thread; X has a "
-        "repeated handle.  Distinct: by SHA-1 of the case's op lines.")
+        "repeated handle.  Distinct: by SHA-1 of the case's op lines.  Plus N: the `nested` stage of the codec harness "
+        "(random DAGs of NNode / NExpr / str / String / [Interned<NNode>] handles nested in each other's payloads, "
+        "decoder interner fresh or shared), counted by distinct op line.")
 
 
 def _shard(args):
@@ -75,6 +84,61 @@ def _cases(ops_path, impl_path, model_path):
             while j < n and ops[j].startswith("X dec"): j += 1
         yield k, ops[i:j], imp[i:j], mod[i:j], i
         i = j
+
+
+NESTED_SHARDS = 8
+
+
+def _nested_one(args):
+    ctx, binp, shard, n = args
+    out = os.path.join(ctx.work, f"nested{shard}")
+    cmd = [binp, "--seed", str(ctx.seed), "--tier", ctx.tier, "--out", out, "--n", str(n), "--stages", "nested",
+           "--shard", str(shard), str(NESTED_SHARDS)]
+    rc, log = vlib.sh(cmd, timeout=3000)
+    if rc != 0 or not os.path.exists(os.path.join(out, "report.json")):
+        return {"err": f"codec harness (nested) shard {shard} rc={rc}: {log[-600:]}"}
+    rc2, err = vlib.run_driver("drv_codec", os.path.join(out, "ops.txt"), os.path.join(out, "model.txt"))
+    if rc2 != 0:
+        return {"err": f"drv_codec shard {shard} rc={rc2}: {err[-400:]}"}
+    lines, diffs = vlib.diff_streams(os.path.join(out, "impl.txt"), os.path.join(out, "model.txt"), os.path.join(out, "ops.txt"))
+    for d in diffs:
+        d["shard"] = out
+        if d.get("op"): d["op"] = d["op"][:400]
+    rep = json.load(open(os.path.join(out, "report.json")))
+    if not diffs:
+        for f in ("ops.txt", "impl.txt", "model.txt"):
+            try: os.remove(os.path.join(out, f))
+            except OSError: pass
+    return {"lines": lines, "diffs": diffs, "report": rep}
+
+
+def _nested(ctx, res, dist, boost=1):
+    """Model/CodecNested (Props/C15Nested) against the real Encode/Decode of nested handles."""
+    ok, log, dt, binp = vlib.cargo_build("codec", "extras")
+    ctx.notes.append(f"cargo build codec {dt:.1f}s")
+    rc, out = vlib.sh(["lake", "build", "drv_codec"], cwd=vlib.LEAN, timeout=3600)
+    if not ok or rc != 0:
+        res.disagreements.append({"line": 0, "op": "build codec harness / drv_codec", "impl": (log if not ok else out)[-1500:], "model": ""})
+        return
+    n = (64000 if ctx.quick() else 640000) * boost
+    outs = vlib.shard_map(_nested_one, [(ctx, binp, s, n) for s in range(NESTED_SHARDS)], min(ctx.jobs, NESTED_SHARDS))
+    nd = {}
+    for o in outs:
+        if "err" in o:
+            res.disagreements.append({"line": 0, "op": "nested", "impl": o["err"], "model": ""})
+            continue
+        r = o["report"]
+        res.evaluations += r["evaluations"]
+        res.distinct_nontrivial += r["distinct_nontrivial"]
+        res.lines_compared += o["lines"]
+        res.disagreements += o["diffs"][:5]
+        for k, v in r["distribution"]["malformed_outcome"].items():
+            if k.startswith("nested"): nd[k] = nd.get(k, 0) + v
+        nd["nested-hypothesis-violated"] = nd.get("nested-hypothesis-violated", 0) + r["distribution"]["interned_hypothesis_violated"]
+        for f in r["oracle_failures"]:
+            if f["sig"] == "nested:live-newdup-inner": continue   # finding F61, filed under C12 (see ASSUMPTIONS: hypothesis IOk)
+            if not any(g["sig"] == f["sig"] for g in res.oracle_failures): res.oracle_failures.append(f)
+    dist["nested"] = nd
 
 
 def run(ctx, boost=1):
@@ -132,6 +196,8 @@ def run(ctx, boost=1):
     dist["cases_by_kind"] = kinds
     dist["duplicate_cases"] = dup
     dist["traces_search_budget_exceeded"] = budget
+    if not ctx.replay:
+        _nested(ctx, res, dist, boost)
     res.distribution = dist
     res.partial = PARTIAL
     return res
@@ -139,9 +205,16 @@ def run(ctx, boost=1):
 
 def search(ctx, res):
     """Proof or correspondence broke without an oracle failure: look harder for a failing input."""
-    ctx.notes.append("boosted search x10")
     ctx.work = os.path.join(ctx.work, "boost")
     os.makedirs(ctx.work, exist_ok=True)
+    if res.disagreements and all("nested" in str(d.get("shard", "")) or d.get("op") == "nested" for d in res.disagreements):
+        # only the nested encode/decode tie broke: search there (the thread traces need not be repeated tenfold)
+        ctx.notes.append("boosted search x10 (nested encode/decode only)")
+        r2 = vlib.Result()
+        _nested(ctx, r2, {}, boost=10)
+        res.evaluations += r2.evaluations
+        return r2.oracle_failures
+    ctx.notes.append("boosted search x10")
     r2 = run(ctx, boost=10)
     res.evaluations += r2.evaluations
     return r2.oracle_failures
